@@ -12,6 +12,8 @@ ANNS = ["int", "str", "float", "bool", "Optional[int]", "List[str]", "Literal['a
 DEFAULTS = ["5", "0", "-1", "2.5", "'mnist'", "None", "True", "(1, 2)", "[1]", "{}", "np.array([1])", "'a.b'"]
 IMPORTS = ["import os", "import sys", "from typing import Optional, List", "from typing import Literal, Union, Dict",
            "import numpy as np", "from collections import OrderedDict", "from __future__ import annotations"]
+# modules an import that binds / mentions one of the generator's own names is taken from (shadow_imports stratum)
+IMPORT_SOURCES = ["os", "lib", "pkg.config", ".defaults", "..base"]
 
 
 def _pick_unique(rng, pool, used):
@@ -75,12 +77,36 @@ def gen_body_simple(rng, ind):
     return lines
 
 
-def gen_scope(rng, depth, ind, in_class, max_items):
-    """lines of a module or class body; names unique within this scope"""
+def gen_shadow_import(rng):
+    """an import statement that mentions names of the generator's own pools: the imported name, the module or the
+    `as` name is spelled like a location that may be defined elsewhere in the module (imports bind names too, yet are
+    not addressable members)"""
+    names = []
+    for _ in range(rng.choice([1, 1, 2, 3])):
+        n = rng.choice(NAME_POOL)
+        if n not in names:
+            names.append(n)
+    r = rng.random()
+    if r < 0.6:
+        parts = [n if rng.random() < 0.7 else "%s as %s" % (n, rng.choice(NAME_POOL + ["_alias"])) for n in names]
+        return "from %s import %s" % (rng.choice(IMPORT_SOURCES), ", ".join(parts))
+    if r < 0.8:
+        return "import " + ", ".join(names)
+    if r < 0.9:
+        return "import %s.%s" % (names[0], rng.choice(NAME_POOL))
+    return "import %s as %s" % (rng.choice(["os", "lib.mod"]), names[0])
+
+
+def gen_scope(rng, depth, ind, in_class, max_items, shadow_imports=0.0):
+    """lines of a module or class body; names unique within this scope.
+    shadow_imports: probability, per item, of an import (in class bodies too) that mentions the generator's own names"""
     used = set()
     lines = []
     n = rng.randint(1, max_items)
     for _ in range(n):
+        if shadow_imports and rng.random() < shadow_imports:
+            lines.append(ind + gen_shadow_import(rng))
+            continue
         r = rng.random()
         if r < 0.12 and not in_class:
             lines.append(ind + rng.choice(IMPORTS))
@@ -111,7 +137,7 @@ def gen_scope(rng, depth, ind, in_class, max_items):
                              else ind + "class %s:" % nm)
                 if rng.random() < 0.5:
                     lines.append(ind + '    """%s"""' % rng.choice(["Class doc.", "Config.\n" + ind + "    :cvar a: A"]))
-                lines.extend(gen_scope(rng, depth - 1, ind + "    ", True, 4))
+                lines.extend(gen_scope(rng, depth - 1, ind + "    ", True, 4, shadow_imports))
         elif r < 0.95 and not in_class:
             lines.append(ind + "if __name__ == '__main__':")
             lines.append(ind + "    " + rng.choice(["print(1)", "main()", "x = 2"]))
@@ -130,12 +156,13 @@ def gen_scope_nested_in_func(rng, depth, ind):
     return lines
 
 
-def gen_module(rng, depth=2, max_items=6, trailing_newline=None):
+def gen_module(rng, depth=2, max_items=6, trailing_newline=None, shadow_imports=0.0):
+    """shadow_imports (default 0: the stream of existing callers is unchanged): see gen_scope"""
     while True:
         lines = []
         if rng.random() < 0.3:
             lines.append('"""Module doc."""')
-        lines.extend(gen_scope(rng, depth, "", False, max_items))
+        lines.extend(gen_scope(rng, depth, "", False, max_items, shadow_imports))
         src = "\n".join(lines)
         src = src.replace("class C():", "class C:").replace("():", ":") if False else src
         src = src.replace("(): ", ": ")
